@@ -154,18 +154,48 @@ def run(rep, tier):
                 rep.bad("R13.2", "apply∘compose", "on the path [%s] of compose, apply(compose(a,b), p) differs from apply(b, apply(a, p)): x-difference %s, y-difference %s" % (
                     show_pc(p.pc)[:120], show_poly((lhs[0] - rhs[0]).n)[:160], show_poly((lhs[1] - rhs[1]).n)[:160]), where=fn_c.loc())
         Cl = [[rsubst_r(x, LAST) for x in row] for row in C]
-        # compose_many: left fold of compose over the slice, starting from the identity, appended to self
+        # compose_many on a slice of two transforms (exact unrolling, fold or loop alike): as polynomial matrices, the result equals
+        # ((self . t0) . t1) in compose's own convention (apply self, then t0, then t1)
         fn_m = F.one(r"^%s::<\w+>::compose_many$" % AT, crates=("geo",))
-        from .c01 import opaque as _opaque
-        from ..symex import bare as _bare
-        pm = [p for p in _opaque(F).run(fn_m) if p.kind == "ret"]
-        rm = _bare(pm[0].ret) if len(pm) == 1 else ""
-        cl = [[_bare(q.ret) for q in _opaque(F).run(g) if q.kind == "ret"] for g in F.closures_of(fn_m)]
-        if re.match(r"^(compose\(a1, fold\(iter\(a2\), default\(\), closure\[\]\)\)|fold\(iter\(a2\), a1, closure\[\]\))$", rm) and cl == [["compose(a2, a3)"]]:
-            rep.ok("R13.2", "compose_many=left-fold")
+        elems = tuple(("index", ("deref", ("arg", 2)), ("const", k)) for k in range(2))
+        exm = Symex(F, inline_crates=("geo", "geo_types"), loop_bound=6, concrete_iters=True)
+        pm = [p for p in exm.run(fn_m, args=[("arg", 1), ("&", ("array", elems))]) if p.kind == "ret"]
+
+        def leaf_m(t):
+            s_ = show(t).replace("*", "").replace("&", "")
+            m_ = re.match(r"^a1\.0\[(\d)\]\[(\d)\]$", s_)
+            if m_:
+                return "A%s%s" % m_.groups()
+            m_ = re.match(r"^a2\[(\d)\]\.0\[(\d)\]\[(\d)\]$", s_)
+            if m_:
+                return "T%s_%s%s" % m_.groups()
+            return s_
+        if len(pm) != 1 or pm[0].pc:
+            rep.bad("R13.2", "compose_many", "compose_many on two transforms has %d result paths" % len(pm), where=fn_m.loc())
         else:
-            rep.bad("R13.2", "compose_many", "compose_many is %s with step %s; expected self.compose(&fold(transforms, identity, |acc, t| acc.compose(t))): "
-                    "a step t.compose(&acc) applies the chain in reverse order" % (rm[:100], cl), where=fn_m.loc())
+            t_ = pm[0].ret
+            while t_[0] in ("&", "deref"):
+                t_ = t_[1]
+            if t_[0] == "adt" and t_[1] == AT:
+                t_ = t_[3][0]
+            Mm = [[from_term(x, leaf_m) for x in row] for row in rows_of(t_)]
+            last = {"A20": R(P(0)), "A21": R(P(0)), "A22": R(P(1))}
+            for k in range(2):
+                last.update({"T%d_20" % k: R(P(0)), "T%d_21" % k: R(P(0)), "T%d_22" % k: R(P(1))})
+            Mm = [[rsubst_r(x, last) for x in row] for row in Mm]
+            Amat = [[rsubst_r(R(sym("A%d%d" % (i, j))), last) for j in range(3)] for i in range(3)]
+            cur = Amat
+            for k in range(2):
+                Tk = [[rsubst_r(R(sym("T%d_%d%d" % (k, i, j))), last) for j in range(3)] for i in range(3)]
+                env_k = {"A%d%d" % (i, j): cur[i][j] for i in range(3) for j in range(3)}
+                env_k.update({"B%d%d" % (i, j): Tk[i][j] for i in range(3) for j in range(3)})
+                cur = [[rsubst_r(C[i][j], env_k) for j in range(3)] for i in range(3)]
+            if all(Mm[i][j].equals(cur[i][j]) for i in range(3) for j in range(3)):
+                rep.ok("R13.2", "compose_many=self.t0.t1")
+            else:
+                d = [(i, j) for i in range(3) for j in range(3) if not Mm[i][j].equals(cur[i][j])][0]
+                rep.bad("R13.2", "compose_many", "compose_many(self, [t0, t1]) differs from self.compose(t0).compose(t1) (entry %s: %s): the chain is not applied in order" % (
+                    d, show_poly((Mm[d[0]][d[1]] - cur[d[0]][d[1]]).n)[:160]), where=fn_m.loc())
     except (KeyError, Unanalysable, ValueError, IndexError) as e:
         rep.bad("R13.2", "unanalysable", str(e))
         return
@@ -321,32 +351,35 @@ def run(rep, tier):
 
 
 def origin_traits(rep, F):
-    """R13.7: Rotate / Scale / Skew / Translate hand the documented matrix about the documented origin to affine_transform; every _mut twin
-    performs the same call on affine_transform_mut / its own _mut sibling with the same arguments."""
-    from .c01 import opaque, calls_of
+    """R13.7 on normal forms: the methods of Rotate / Scale / Skew / Translate are inlined into each other (helpers of the same traits may be
+    called or inlined at will) until only `affine_transform(_mut)(self, AffineTransform::X(..))` remains; the argument list of the constructor,
+    in particular the origin (given point / centroid / centre of the bounding rectangle; identity when there is none), is compared with the
+    documented one, and every _mut twin must reach affine_transform_mut with the same transform."""
+    from .c01 import calls_of
     from ..symex import bare
-    rep.rule("R13.7", "Rotate/Scale/Skew/Translate: *_around_point = affine_transform(AffineTransform::X(args, point)); centroid / bounding-rect-centre forms delegate to it with that origin "
-                      "(identity when there is none); scale/skew = *_xy(v, v); every *_mut twin makes the same call on the _mut sibling")
+    rep.rule("R13.7", "Rotate/Scale/Skew/Translate reduce to affine_transform(self, AffineTransform::X(args, documented origin)) (identity when the origin does not exist); every *_mut twin applies the same transform through affine_transform_mut")
+    C_ = r"center\(\(into\(bounding_rect\(a1\)\) as Some\)\.0\)"
     spec = {
         "geo::algorithm::rotate::Rotate": {
-            "rotate_around_point": [("", r"^affine_transform\(a1, rotate\(a2, a3\)\)$")],
-            "rotate_around_centroid": [("=0", r"^a1$"), ("=1", r"^rotate_around_point\(a1, a2, \(into\(centroid\(a1\)\) as Some\)\.0\)$")],
-            "rotate_around_center": [("=0", r"^a1$"), ("=1", r"^rotate_around_point\(a1, a2, Point::Point\(center\(\(into\(bounding_rect\(a1\)\) as Some\)\.0\)\)\)$")],
+            "rotate_around_point": [("", r"rotate\(a2, a3\)")],
+            "rotate_around_centroid": [("=0", None), ("=1", r"rotate\(a2, \(into\(centroid\(a1\)\) as Some\)\.0\)")],
+            "rotate_around_center": [("=0", None), ("=1", r"rotate\(a2, Point::Point\(%s\)\)" % C_)],
         },
         "geo::algorithm::scale::Scale": {
-            "scale": [("", r"^scale_xy\(a1, a2, a2\)$")],
-            "scale_xy": [("=0", r"^a1$"), ("=1", r"^scale_around_point\(a1, a2, a3, center\(\(into\(bounding_rect\(a1\)\) as Some\)\.0\)\)$")],
-            "scale_around_point": [("", r"^affine_transform\(a1, scale\(a2, a3, a4\)\)$")],
+            "scale": [("=0", None), ("=1", r"scale\(a2, a2, %s\)" % C_)],
+            "scale_xy": [("=0", None), ("=1", r"scale\(a2, a3, %s\)" % C_)],
+            "scale_around_point": [("", r"scale\(a2, a3, a4\)")],
         },
         "geo::algorithm::skew::Skew": {
-            "skew": [("", r"^skew_xy\(a1, a2, a2\)$")],
-            "skew_xy": [("=0", r"^a1$"), ("=1", r"^skew_around_point\(a1, a2, a3, center\(\(into\(bounding_rect\(a1\)\) as Some\)\.0\)\)$")],
-            "skew_around_point": [("", r"^affine_transform\(a1, skew\(a2, a3, a4\)\)$")],
+            "skew": [("=0", None), ("=1", r"skew\(a2, a2, %s\)" % C_)],
+            "skew_xy": [("=0", None), ("=1", r"skew\(a2, a3, %s\)" % C_)],
+            "skew_around_point": [("", r"skew\(a2, a3, a4\)")],
         },
         "geo::algorithm::translate::Translate": {
-            "translate": [("", r"^affine_transform\(a1, translate\(a2, a3\)\)$")],
+            "translate": [("", r"translate\(a2, a3\)")],
         },
     }
+    KEEP = [r"AffineOps.*::affine_transform(_mut)?$", r"AffineTransform::<\w+>::(scale|skew|rotate|translate)$", r"Centroid.*::centroid$", r"BoundingRect.*::bounding_rect$", r"Rect::<T>::center$"]
     n = 0
     for tr, meths in spec.items():
         ims = [im for im in F.impls_of(tr) if im["crate"] == "geo"]
@@ -361,42 +394,40 @@ def origin_traits(rep, F):
                 fm = F.impl_fn(im, m + "_mut")
                 if fn is None or fm is None:
                     raise KeyError("method %s / %s_mut not found" % (m, m))
-                ps = [p for p in opaque(F, loop_bound=1).run(fn) if p.kind == "ret"]
-                pm = [p for p in opaque(F, loop_bound=1).run(fm) if p.kind == "ret"]
+                ps = [p for p in Symex(F, inline_crates=("geo", "geo_types"), no_inline=KEEP, loop_bound=1).run(fn) if p.kind == "ret"]
+                pm = [p for p in Symex(F, inline_crates=("geo", "geo_types"), no_inline=KEEP, loop_bound=1).run(fm) if p.kind == "ret"]
             except (KeyError, Unanalysable) as e:
                 rep.bad("R13.7", key + ":anchor", str(e))
                 continue
             n += 1
             bad = None
-            if len(ps) != len(rows) or len(pm) != len(rows):
-                bad = "%d / %d result paths, expected %d" % (len(ps), len(pm), len(rows))
-            else:
-                for (suffix, pat) in rows:
-                    sel = [p for p in ps if show_pc(p.pc).endswith(suffix)] if suffix else ps
-                    selm = [p for p in pm if show_pc(p.pc).endswith(suffix)] if suffix else pm
-                    if len(sel) != 1 or len(selm) != 1:
-                        bad = "guard not recognised"
+            for which, paths in (("", ps), ("_mut", pm)):
+                if len(paths) != len(rows):
+                    bad = "%s%s has %d result paths, expected %d" % (m, which, len(paths), len(rows))
+                    break
+                for suffix, pat in rows:
+                    sel = [p for p in paths if show_pc(p.pc).endswith(suffix)] if suffix else paths
+                    if len(sel) != 1:
+                        bad = "%s%s: the decision whether an origin exists was not recognised" % (m, which)
                         break
-                    r = bare(sel[0].ret)
-                    if not re.match(pat, r):
-                        bad = "%s returns %s" % (m, r[:120])
-                        break
-                    # the _mut twin: its last geo call is the same call on the _mut sibling (identity path: no call)
-                    cs = [c for c in calls_of(selm[0]) if re.search(r"(affine_transform_mut|_mut)$", c[1])]
-                    if pat == r"^a1$":
-                        if cs:
-                            bad = "%s_mut transforms although there is no origin" % m
-                            break
+                    p = sel[0]
+                    cs = [c for c in calls_of(p) if re.search(r"affine_transform(_mut)?$", c[1])]
+                    if pat is None:
+                        if cs or (which == "" and bare(p.ret) != "a1"):
+                            bad = "%s%s transforms although there is no origin" % (m, which)
                         continue
-                    if not cs:
-                        bad = "%s_mut makes no call to a _mut sibling" % m
+                    if len(cs) != 1 or not cs[0][1].endswith("affine_transform" + which):
+                        bad = "%s%s does not end in exactly one affine_transform%s call" % (m, which, which)
                         break
-                    last = cs[-1]
-                    twin = "%s(%s)" % (last[1].rsplit("::", 1)[-1], ", ".join(bare(a) for a in last[2]))
-                    want = re.sub(r"^(\w+)\(", lambda z: z.group(1) + "_mut(", r, count=1)
-                    if twin != want:
-                        bad = "%s_mut calls %s but %s returns %s" % (m, twin[:100], m, r[:100])
+                    tf = bare(cs[0][2][1])
+                    if bare(cs[0][2][0]) != "a1" or not re.match("^" + pat + "$", tf):
+                        bad = "%s%s applies %s to %s; expected the documented transform %s on self" % (m, which, tf[:120], bare(cs[0][2][0])[:20], pat.replace("\\", "")[:100])
                         break
+                    if which == "" and not bare(p.ret).startswith("affine_transform(a1, "):
+                        bad = "%s does not return the transformed geometry (%s)" % (m, bare(p.ret)[:80])
+                        break
+                if bad:
+                    break
             if bad:
                 rep.bad("R13.7", key, bad, where=fn.loc())
             else:
